@@ -223,6 +223,27 @@ def gor_clean(S, g, depth=0):
     return True
 
 
+def arrow_nocut_plus_zone(S, g, docvals):
+    """CBOR: a literal key written with '=>' (no cut), a LATER table member over the key's class that needs at least one pair
+    (occurrence lower bound >= 1), and a document map that has that key: the pair is handed to the literal member although the
+    table needs it"""
+    for ms in flat_members(S, g):
+        for i, m in enumerate(ms):
+            p = member_parts(m)
+            if p is None:
+                continue
+            lo, hi, key, cut, val, nm = p
+            if is_lit_key(key) and not cut:
+                for x in ms[i + 1:]:
+                    q = member_parts(x)
+                    if q is not None and not is_lit_key(q[2]) and q[0] >= 1 and classes_overlap(key_class(q[2]), key_class(key)):
+                        kv = key[1]
+                        for d in docvals:
+                            if d[0] == "map" and any(a[0] == kv[0] and a[1] == kv[1] for a, _ in d[1]):
+                                return True
+    return False
+
+
 def arrow_nocut_zone(S, g, docvals):
     """a literal key written with '=>' (no cut) followed by a wildcard member, and a document map that has that key"""
     for ms in flat_members(S, g):
@@ -308,6 +329,8 @@ def zones(S, v, mode):
             z.add("kf-%s-map-member-shape" % P)
         elif mode == "json" and arrow_nocut_zone(S, g, docvals):
             z.add("kf-c01-arrow-key-acts-as-cut")
+        elif mode == "cbor" and arrow_nocut_plus_zone(S, g, docvals):
+            z.add("kf-c02-arrow-key-claimed-before-required-table")
     return z
 
 
